@@ -1,6 +1,6 @@
 (* Props/C09.v — Top-N, sorting and paging return the right slice of the full ranking.
    Only statements, each closed by `exact`, with Print Assumptions beneath. *)
-From Coq Require Import ZArith List.
+From Coq Require Import ZArith List Bool.
 From Bluge Require Import Base.Res Base.GoSort Gen.ParamsTopN Search.Sort Search.TopN Search.TopNProofs.
 Import ListNotations.
 Open Scope Z_scope.
@@ -15,3 +15,110 @@ Theorem cmp_total_order : forall descs,
   (forall a b, compare descs a b = 0 -> h_num a = h_num b /\ forall x, compare descs a x = compare descs b x).
 Proof. exact cmp_total_order_all. Qed.
 Print Assumptions cmp_total_order.
+
+(* for every match list, every n >= 0 and from >= 0 (n = 0 and from beyond the result count
+   included), every sort order, every consumer of the hits (aggregations): TopNSearch returns
+   exactly elements [from, from+n) of the complete ranking = the insertion sort of all matches
+   by Compare.  `ranking` does not mention the collector's stores. *)
+Theorem topn_slice : forall (B : Type) (consume : hit -> B -> B) n from order aggf b0 hits,
+  0 <= n -> 0 <= from ->
+  rmap fst (topn_search consume n order (PFrom from) aggf b0 hits) =
+  Ok (firstn (Z.to_nat n) (skipn (Z.to_nat from) (ranking order aggf hits))).
+Proof. exact @topn_slice_all. Qed.
+Print Assumptions topn_slice.
+
+(* the same for a collector started on either store, whatever the switch threshold says *)
+Theorem topn_slice_store_independent : forall (B : Type) (consume : hit -> B -> B) c b0 hits,
+  (c_store c = SSlice [] \/ c_store c = SHeap []) -> c_lowest c = None ->
+  c_after c = None -> c_reverse c = false ->
+  fst (collect consume c b0 hits) =
+  skipn (c_skip c) (firstn (c_cap c) (isort (compare (descs_of (c_order c))) (prepare_all (c_needed c) (c_order c) 0 hits))).
+Proof. exact @topn_slice_both_stores. Qed.
+Print Assumptions topn_slice_store_independent.
+
+(* the slice is non-trivial and the two stores are really both exercised around the threshold *)
+Example topn_slice_nonvacuous :
+  rmap (fun r => map h_doc (fst r)) (topn_search (fun _ (b : unit) => b) 7 ex_order1 (PFrom 3) [] tt ex12)
+    = Ok [103; 108; 101; 106; 111; 104; 109] /\
+  rmap (fun r => map h_doc (fst r)) (topn_search (fun _ (b : unit) => b) 8 ex_order1 (PFrom 3) [] tt ex12)
+    = Ok [103; 108; 101; 106; 111; 104; 109; 102] /\
+  new_store 10 = SSlice [] /\ new_store 11 = SHeap [].
+Proof. exact topn_slice_ex. Qed.
+Print Assumptions topn_slice_nonvacuous.
+
+(* in every state reached after the hits P (inv), a hit rejected by the bound
+   lowestMatchOutsideResults is not among the best k of P ++ [d], and those are unchanged *)
+Theorem lowest_outside_sound : forall descs k sl P d,
+  inv descs k sl P -> nodup_nums (P ++ [d]) ->
+  match snd sl with Some lo => 0 <=? compare descs d lo | None => false end = true ->
+  ~ In d (firstn k (isort (compare descs) (P ++ [d]))) /\
+  firstn k (isort (compare descs) (P ++ [d])) = firstn k (isort (compare descs) P).
+Proof. exact lowest_outside_sound_all. Qed.
+Print Assumptions lowest_outside_sound.
+
+(* the invariant `inv` is the one every run of Collect maintains *)
+Theorem collector_invariant : forall (B : Type) (consume : hit -> B -> B) c b hits,
+  (c_store c = SSlice [] \/ c_store c = SHeap []) -> c_lowest c = None ->
+  let c' := fst (collect_loop consume c b 0 hits) in
+  inv (descs_of (c_order c)) (c_cap c) (c_store c', c_lowest c') (kept c 0 hits).
+Proof. exact @collect_loop_inv. Qed.
+Print Assumptions collector_invariant.
+
+Example lowest_outside_nonvacuous :
+  let descs := [false] in
+  let mk n k := {| h_num := n; h_raw := dummy_raw; h_dv := []; h_sort := [[k]] |} in
+  let P := [mk 1 5; mk 2 3; mk 3 9] in
+  let sl := fold_left (core_step descs 2) P (SSlice [], None) in
+  snd sl = Some (mk 3 9) /\ (0 <=? compare descs (mk 4 9) (mk 3 9)) = true /\
+  map h_num (store_elems (fst sl)) = [2; 1].
+Proof. exact lowest_outside_ex. Qed.
+Print Assumptions lowest_outside_nonvacuous.
+
+(* for a present key strictly between lowTerm and highTerm (the generated constants), a hit
+   without a value compares before it under MissingFirst and after it otherwise, asc and desc *)
+Theorem missing_placement : forall s hm hp v,
+  primary_value (s_src s) hm = None -> primary_value (s_src s) hp = Some v ->
+  bcmp low_term v < 0 -> bcmp v high_term < 0 ->
+  (s_first s = true -> cmp_component (s_desc s) (sort_value s hm) (sort_value s hp) < 0) /\
+  (s_first s = false -> cmp_component (s_desc s) (sort_value s hm) (sort_value s hp) > 0).
+Proof. exact missing_placement_all. Qed.
+Print Assumptions missing_placement.
+
+(* without the interval hypothesis the statement is false: an empty key (empty keyword) with
+   MissingFirst ascending places the missing hit after it.  Replayed on the implementation:
+   KNOWN_FINDINGS C09-sentinel-collision. *)
+Theorem missing_placement_outside_interval_refuted :
+  exists s hm hp v,
+    primary_value (s_src s) hm = None /\ primary_value (s_src s) hp = Some v /\
+    s_first s = true /\ s_desc s = false /\
+    cmp_component (s_desc s) (sort_value s hm) (sort_value s hp) > 0.
+Proof. exact missing_placement_outside_refuted. Qed.
+Print Assumptions missing_placement_outside_interval_refuted.
+
+(* After(key) with a key of full length returns the first n hits of the ranking of the hits
+   whose sort key is strictly after `key` *)
+Theorem after_page : forall (B : Type) (consume : hit -> B -> B) n order key aggf b0 hits,
+  0 <= n -> (length order <= length key)%nat ->
+  rmap fst (topn_search consume n order (PAfter key) aggf b0 hits) =
+  Ok (firstn (Z.to_nat n)
+        (isort (compare (descs_of order))
+           (filter (after_key (descs_of order) key) (prepare_all (order_fields order ++ aggf) order 0 hits)))).
+Proof. exact @after_page_all. Qed.
+Print Assumptions after_page.
+
+(* full statement wanted: Before(key) = the LAST n hits strictly before `key` of the forward
+   ranking, in forward order, and (paging_covers) chained After/Before pages concatenate to the
+   ranking under an order distinguishing all matches.  Proved here: Before(key) = reverse of
+   the first n, under the reversed comparison, of the hits strictly before `key`; the
+   identification of the reversed-comparison ranking with the reversed forward ranking (which
+   needs the distinguishing hypothesis, the hit-number tie-break is not reversed) and the chain
+   induction are checked by the engine's oracle only. *)
+Theorem before_page_partial : forall (B : Type) (consume : hit -> B -> B) n order key aggf b0 hits,
+  0 <= n -> (length order <= length key)%nat ->
+  rmap fst (topn_search consume n order (PBefore key) aggf b0 hits) =
+  Ok (rev (firstn (Z.to_nat n)
+        (isort (compare (map negb (descs_of order)))
+           (filter (fun d => cmp_keys (descs_of order) (h_sort d) key <? 0)
+                   (prepare_all (order_fields order ++ aggf) order 0 hits))))).
+Proof. exact @before_page_all. Qed.
+Print Assumptions before_page_partial.
